@@ -805,6 +805,134 @@ func run(args []string) error {
 		}
 	}
 
+	// ---- limb boundaries of the 10x26-bit field representation (limb i = bits 26i..26i+25, top limb 22 bits):
+	//      every limb at 0, 1, max-1, max or random, values near p and 2^256-1 - small*2^(26k); used as
+	//      public-key abscissa (both parities), as r of a signature, and as message
+	limbValue := func() *big.Int {
+		z := new(big.Int)
+		switch g.r.Intn(6) {
+		case 0: // 2^256-1 - d*2^(26k) - low
+			z.Sub(big2_256, bi(1))
+			z.Sub(z, new(big.Int).Lsh(bi(int64(1+g.r.Intn(1<<uint(1+g.r.Intn(26))))), uint(26*g.r.Intn(10))))
+			z.Sub(z, bi(int64(g.r.Intn(3))*int64(g.r.Intn(1<<31))))
+			if z.Sign() < 0 {
+				z.Neg(z)
+			}
+		case 1: // near p
+			z.Add(bigP, bi(int64(g.r.Intn(2000))-1000))
+			if g.r.Bool() {
+				z.Sub(z, new(big.Int).Lsh(bi(int64(1+g.r.Intn(1<<22))), uint(26*(1+g.r.Intn(9)))))
+			}
+		default:
+			for i := 9; i >= 0; i-- {
+				bits := uint(26)
+				if i == 9 {
+					bits = 22
+				}
+				max := int64(1)<<bits - 1
+				var limb int64
+				switch g.r.Intn(6) {
+				case 0:
+					limb = 0
+				case 1:
+					limb = 1
+				case 2:
+					limb = max - 1
+				case 3, 4:
+					limb = max
+				default:
+					limb = int64(g.r.U64()) & max
+				}
+				z.Lsh(z, bits)
+				z.Or(z, bi(limb))
+			}
+		}
+		return z
+	}
+	nLimb := n
+	if nLimb < 120 {
+		nLimb = 120
+	}
+	for j := 0; j < nLimb; j++ {
+		x := limbValue()
+		if x.BitLen() > 256 {
+			continue
+		}
+		for _, pre := range []byte{2, 3} {
+			b := append([]byte{pre}, b32(x)...)
+			var code int
+			obs := ""
+			if Guard(func() { code = secp.PubkeyIsValid(b) }) {
+				obs = "panic"
+			} else {
+				obs = fmt.Sprint(code)
+			}
+			emit("limb", "pkcode", []string{hx(b)}, obs, map[string]interface{}{"kind": "limb-boundary"}, true)
+			var err error
+			if Guard(func() { _, err = cipher.NewPubKey(b) }) {
+				obs = "panic"
+			} else {
+				obs = errName(err)
+			}
+			emit("limb", "newpk", []string{hx(b)}, obs, map[string]interface{}{"kind": "limb-boundary"}, true)
+			k := g.validKey()
+			var out []byte
+			if Guard(func() { out = secp256k1.ECDH(b, b32(k)) }) {
+				obs = "panic"
+			} else if out == nil {
+				obs = "nil"
+			} else {
+				obs = hx(out)
+			}
+			emit("limb", "ecdh", []string{hx(b), hn(k)}, obs, map[string]interface{}{"kind": "limb-boundary"}, true)
+		}
+		// as r (recid 0..3) with a limb-boundary message
+		{
+			sg := sigT{x, g.validKey(), g.r.Intn(4)}
+			m := g.rand256()
+			if g.r.Bool() {
+				m = limbValue()
+				if m.BitLen() > 256 {
+					m = g.rand256()
+				}
+			}
+			msg := b32(m)
+			sb := sg.bytes()
+			var rec []byte
+			var code int
+			obs := ""
+			if Guard(func() { rec, code = secp.RecoverPublicKey(sb[:64], msg, sg.recid) }) {
+				obs = "panic"
+			} else if rec != nil {
+				obs = fmt.Sprintf("%d %s", code, hx(rec))
+			} else {
+				obs = fmt.Sprintf("%d nil", code)
+			}
+			emit("limb", "recover", []string{hx(msg), hx(sb)}, obs, map[string]interface{}{"kind": "limb-boundary"}, true)
+			// cipher.PubKeyFromSig must not panic either
+			var csig cipher.Sig
+			copy(csig[:], sb)
+			var h cipher.SHA256
+			copy(h[:], msg)
+			var err error
+			if Guard(func() { _, err = cipher.PubKeyFromSig(csig, h) }) {
+				obs = "panic"
+			} else if err != nil {
+				obs = "0 nil"
+			} else {
+				obs = "same"
+			}
+			want := "0 nil"
+			if rec != nil {
+				want = "same"
+			}
+			if obs != want {
+				emit("limb", "recover", []string{hx(msg), hx(sb)}, "PubKeyFromSig:"+obs, map[string]interface{}{"kind": "limb-boundary PubKeyFromSig"}, true)
+			}
+		}
+	}
+	hist.Add(fmt.Sprintf("limb-boundary=%d", len(caseJSON["limb"])))
+
 	// ---- deterministic sweep over curve points with a tiny ordinate (|y| < 120): parsing, validity and
 	//      multiplication by +-1, +-2 (results are again such points).  The field code holds these
 	//      ordinates in non-canonical form at various places (findings fixed in 04aa20fed, 0989034ad).
